@@ -179,6 +179,9 @@ def main():
     def spec_line(line):
         return mod.spec_line(line) if hasattr(mod, "spec_line") else line
 
+    def specs_for(line):
+        return mod.specs_for(line) if hasattr(mod, "specs_for") else mod.SPECS
+
     def model_request(line, impl):
         if hasattr(mod, "model_request"):
             return mod.model_request(line, impl)
@@ -198,7 +201,7 @@ def main():
         model = lean.ask(model_request(line, impl))
         stats["evaluations"] += 1
         spec_ok = True
-        for sid in mod.SPECS:
+        for sid in specs_for(line):
             v = lean.ask(f"spec {sid} {spec_line(line)} || {impl}")
             stats["spec_on_impl"] += 1
             if v != "1":
@@ -247,7 +250,7 @@ def main():
     def still_bad(line):
         """predicate used while shrinking: same kind of failure persists"""
         impl = guarded_impl(line)
-        specs = [lean.ask(f"spec {sid} {spec_line(line)} || {impl}") for sid in mod.SPECS]
+        specs = [lean.ask(f"spec {sid} {spec_line(line)} || {impl}") for sid in specs_for(line)]
         if any(s == "bad-op" for s in specs) and not impl.startswith("harness"):
             return None
         return ("spec" if any(s != "1" for s in specs) else
